@@ -903,3 +903,32 @@ func trimStack(s string) string {
 	}
 	return strings.Join(lines, "\n")
 }
+
+// Exiting reports that the execution is being torn down: shim operations must not touch state.
+func Exiting() bool {
+	x := X
+	return x != nil && x.aborting
+}
+
+// Sequentially runs f as the controller would (shim operations pass through, nothing is
+// recorded). Used by probes evaluated at a frozen state.
+func (x *Exec) Sequentially(f func()) {
+	save := x.cur
+	x.cur = nil
+	f()
+	x.cur = save
+}
+
+// FinalKey is the signature of a finished execution.
+func (x *Exec) FinalKey() H { return x.stateKey(nil) }
+
+// ThreadName returns the name of thread id.
+func (x *Exec) ThreadName(id int) string {
+	if id == 0 {
+		return "main"
+	}
+	return x.Threads[id-1].Name
+}
+
+// Failed reports whether the execution has been abandoned (threads must stop working).
+func (x *Exec) Failed() bool { return x.aborting }
